@@ -4,24 +4,24 @@ use cgmath::prelude::*;
 use cgmath::{Basis2, Basis3, Matrix2, Matrix3, Quaternion};
 use num_traits::Float;
 
-use crate::clause;
-use crate::conv::*;
-use crate::fw::{Case, Clause};
-use crate::gen::{self, Rng, Tier};
-use crate::iv::Tri;
-use crate::model::*;
-use crate::sc::{Ck, Rat, Sc};
+use cgv_core::clause;
+use cgv_core::conv::*;
+use cgv_core::fw::{Case, Clause};
+use cgv_core::gen::{self, Rng, Tier};
+use cgv_core::iv::Tri;
+use cgv_core::model::*;
+use cgv_core::sc::{Ck, Rat, Sc};
 
 fn frame_rows(rng: &mut Rng) -> [[Rat; 3]; 3] {
     let q = gen::unit_quat(rng, Tier::Quick);
-    let qq: [crate::q::Q; 4] = [
-        crate::q::Q::rat(q[0]),
-        crate::q::Q::rat(q[1]),
-        crate::q::Q::rat(q[2]),
-        crate::q::Q::rat(q[3]),
+    let qq: [cgv_core::q::Q; 4] = [
+        cgv_core::q::Q::rat(q[0]),
+        cgv_core::q::Q::rat(q[1]),
+        cgv_core::q::Q::rat(q[2]),
+        cgv_core::q::Q::rat(q[3]),
     ];
     let m = qmat(qq);
-    let f = |x: crate::q::Q| Rat::new(x.num() as i64, x.den() as i64);
+    let f = |x: cgv_core::q::Q| Rat::new(x.num() as i64, x.den() as i64);
     let row = |r: usize| [f(m[0][r]), f(m[1][r]), f(m[2][r])];
     [row(0), row(1), row(2)]
 }
@@ -116,7 +116,7 @@ struct Arc<S: Sc> {
     perp: Option<V<S, 3>>,
 }
 
-fn read_arc<S: Sc>(rd: &mut crate::fw::Rd) -> Arc<S> {
+fn read_arc<S: Sc>(rd: &mut cgv_core::fw::Rd) -> Arc<S> {
     let class = rd.k();
     match class {
         0 => {
@@ -130,7 +130,18 @@ fn read_arc<S: Sc>(rd: &mut crate::fw::Rd) -> Arc<S> {
         1 => {
             let a: V<S, 3> = rd.arr();
             let b: V<S, 3> = rd.arr();
-            Arc { a, b, h: None, kind: 0, perp: None }
+            // two independent draws can coincide or be opposite: classify exactly
+            let cr = cross(a, b);
+            let zero = S::i(0);
+            let parallel = cr.iter().all(|c| S::t_eq(c, &zero) == Tri::True);
+            let kind = if !parallel {
+                0
+            } else if S::t_lt(&zero, &vdot(a, b)) == Tri::True {
+                1
+            } else {
+                2
+            };
+            Arc { a, b, h: None, kind, perp: None }
         }
         2 => {
             let a: V<S, 3> = rd.arr();
@@ -265,7 +276,7 @@ fn from_arc<S: Sc>(case: &Case, ck: &mut Ck<S>) {
 /// so these inputs are monitored on the real f64 type with the only demand the
 /// statement leaves: r(a) stays within 2e-7 of b.  Exactly opposite vectors in
 /// general position (irrational perpendicular axis) are checked here as well.
-pub fn native(cfg: &crate::fw::RunCfg, extra: &mut crate::fw::Extra) {
+pub fn native(cfg: &cgv_core::fw::RunCfg, extra: &mut cgv_core::fw::Extra) {
     use cgmath::Vector3;
     use serde_json::json;
     let n = if cfg.tier == Tier::Quick { 4000 } else { 200_000 };
@@ -295,7 +306,7 @@ pub fn native(cfg: &crate::fw::RunCfg, extra: &mut crate::fw::Extra) {
                 let d = 10f64.powf(rng.uniform(-12.0, -7.5));
                 let th = if kind == 0 { d } else { std::f64::consts::PI - d };
                 let b = a * th.cos() + nrm.cross(a) * th.sin();
-                let r = crate::fw::catch(|| {
+                let r = cgv_core::fw::catch(|| {
                     let q: Quaternion<f64> = Rotation::between_vectors(a, b);
                     let qa = Quaternion::from_arc(a * 3.0, b * 0.5, None);
                     (q, qa)
@@ -317,7 +328,7 @@ pub fn native(cfg: &crate::fw::RunCfg, extra: &mut crate::fw::Extra) {
                 // exactly opposite, general position
                 let b = -a;
                 let fb = nrm;
-                let r = crate::fw::catch(|| {
+                let r = cgv_core::fw::catch(|| {
                     let q: Quaternion<f64> = Rotation::between_vectors(a, b);
                     let qa = Quaternion::from_arc(a * 2.0, b * 0.25, None);
                     let qf = Quaternion::from_arc(a * 2.0, b * 0.25, Some(fb));
@@ -347,6 +358,24 @@ pub fn native(cfg: &crate::fw::RunCfg, extra: &mut crate::fw::Extra) {
                 }
             }
         }
+        // 2-D: exactly opposite and exactly equal vectors in general position
+        {
+            let a2 = cgmath::Vector2::new(a.x, a.y).normalize();
+            for (b2, what) in [(-a2, "opposite"), (a2, "equal")] {
+                let r = cgv_core::fw::catch(|| {
+                    let r: Basis2<f64> = Rotation::between_vectors(a2, b2);
+                    r.rotate_vector(a2)
+                });
+                match r {
+                    Err(p) => bad = Some(format!("Basis2::between_vectors panicked on {what} vectors: {p}")),
+                    Ok(ra) => {
+                        if !((ra - b2).magnitude() <= 2e-7) {
+                            bad = Some(format!("Basis2::between_vectors on {what} vectors: r(a) = {ra:?}, b = {b2:?}"));
+                        }
+                    }
+                }
+            }
+        }
         seen.insert((a.x.to_bits(), kind));
         if let Some(msg) = bad {
             extra.violations.push(("native_zone".into(), msg, json!({"a": [a.x, a.y, a.z], "n": [nrm.x, nrm.y, nrm.z], "kind": kind, "index": i})));
@@ -370,6 +399,19 @@ pub fn native(cfg: &crate::fw::RunCfg, extra: &mut crate::fw::Extra) {
 fn g_2d(rng: &mut Rng, tier: Tier) -> Case {
     use std::f64::consts::PI;
     let mut c = Case::new();
+    if rng.chance(1, 8) {
+        // exactly parallel / exactly opposite, axis-aligned so that every value is an exact point
+        let o = Rat::int(if rng.bool() { 1 } else { -1 });
+        let z = Rat::int(0);
+        c.push_r(&if rng.bool() { [o, z] } else { [z, o] });
+        let anti = rng.bool();
+        c.push_f(&[if anti { PI } else { 0.0 }]);
+        c.push_k(&[if anti { 2 } else { 1 }]);
+        c.class = 2;
+        c.nontrivial = true;
+        return c;
+    }
+    c.push_k(&[0]);
     c.push_r(&gen::unit_vec2(rng, tier));
     let th = match rng.below(10) {
         0 => rng.pick(&[PI / 2.0, -PI / 2.0, 1e-3, -1e-3, 3.0, -3.0, 1.0, -1.0]),
@@ -384,8 +426,19 @@ fn g_2d(rng: &mut Rng, tier: Tier) -> Case {
 }
 fn between2<S: Sc>(case: &Case, ck: &mut Ck<S>) {
     let mut rd = case.rd();
+    let exact = rd.k();
     let a: V<S, 2> = rd.arr();
     let th: S = rd.x();
+    if exact != 0 {
+        // b = a or b = -a exactly: identity resp. half turn
+        let b = if exact == 2 { vneg(a) } else { a };
+        let r: Basis2<S> = Rotation::between_vectors(mk_v2(a), mk_v2(b));
+        ck.eqv("Basis2::between_vectors (parallel/opposite): r(a) = b", v2(r.rotate_vector(mk_v2(a))), b);
+        let m = m2(Matrix2::from(r));
+        ck.eq("Basis2::between_vectors (parallel/opposite): det = 1", det(m), S::i(1));
+        ck.eq("Basis2::between_vectors (parallel/opposite): trace = 2 cos", m[0][0] + m[1][1], if exact == 2 { S::i(-2) } else { S::i(2) });
+        return;
+    }
     let (s, c) = (Float::sin(th), Float::cos(th));
     let b = [c * a[0] - s * a[1], s * a[0] + c * a[1]];
     let r: Basis2<S> = Rotation::between_vectors(mk_v2(a), mk_v2(b));
@@ -409,7 +462,7 @@ pub fn clauses() -> Vec<Clause> {
     vec![
         clause!("between_vectors", EP3, g_arc, between, weight = 2.0, classes = 4),
         clause!("from_arc", EPA, g_arc, from_arc, weight = 2.0, classes = 4),
-        clause!("between_vectors_2d", EP2, g_2d, between2, weight = 1.0, classes = 2),
+        clause!("between_vectors_2d", EP2, g_2d, between2, weight = 1.0, classes = 3),
     ]
 }
 
